@@ -48,8 +48,8 @@ def make_case(r):
         # enumeration datatype: several default constants of one sort, the
         # command accepts more than one of them
         cons = r.sample(['red', 'green', 'blue', 'cyan', 'pink', 'grey',
-                         'teal', 'plum'], r.randint(3, 6))
-        n = r.randint(2, 4)
+                         'teal', 'plum'], r.randint(3, 4))
+        n = r.randint(2, 3)
         lines = ['(declare-datatype Color (' +
                  ' '.join(f'({c})' for c in cons) + '))']
         for i in range(n):
